@@ -100,6 +100,41 @@ def explain_fall(op_signal, intervals):
     return explain_unary(op_signal, intervals)
 
 
+# rise(p) at t is (p at t) and not (p at t-1), fall(p) at t is (p at t-1) and not (p at t):
+# the functions below return the intervals of p to explain at the same sample and the
+# intervals of p to explain at the previous sample (with the opposite polarity)
+def explain_sat_rise(op_signal, intervals):
+    return intervals, explain_prev(op_signal, intervals)
+
+
+def explain_unsat_rise(op_signal, intervals):
+    now_intervals = []
+    before_intervals = []
+    for begin, end in intervals:
+        for i in range(begin, end+1):
+            if op_signal[i] < 0:
+                now_intervals.append([i, i])
+            elif i > 0:
+                before_intervals.append([i - 1, i - 1])
+    return now_intervals, before_intervals
+
+
+def explain_sat_fall(op_signal, intervals):
+    return intervals, explain_prev(op_signal, intervals)
+
+
+def explain_unsat_fall(op_signal, intervals):
+    now_intervals = []
+    before_intervals = []
+    for begin, end in intervals:
+        for i in range(begin, end+1):
+            if op_signal[i] > 0:
+                now_intervals.append([i, i])
+            elif i > 0:
+                before_intervals.append([i - 1, i - 1])
+    return now_intervals, before_intervals
+
+
 def explain_sat_prev(op_signal, intervals):
     return explain_prev(op_signal, intervals)
 
